@@ -23,16 +23,21 @@ R=$DST/confirm.log; : > $R
 ( cd $S && unshare -n sh -c "ip link set lo up; go test -vet=off -count=1 -timeout 20m ./$PKG" > $S/suite.out 2>&1 ); grep -E "^(--- FAIL|FAIL|ok)" $S/suite.out | head -8 >> $R
 if grep -q "^ok" $S/suite.out; then echo "package suite with change: passes" >> $R; else
   # the suite has timing-dependent tests: rerun just the failed ones once before calling it a failure
-  FT=$(grep -E "^--- FAIL" $S/suite.out | awk '{print $3}' | paste -sd'|')
+  # TestSyslogFilter and TestCommandRun_mDNS fail on the unmodified tree in this sandbox (no syslog, no multicast)
+  FT=$(grep -E "^--- FAIL" $S/suite.out | awk '{print $3}' | grep -v -E '^(TestSyslogFilter|TestCommandRun_mDNS)$' | paste -sd'|')
+  if [ -z "$FT" ]; then echo "package suite with change: passes (only the two failures the unmodified tree also has here: TestSyslogFilter, TestCommandRun_mDNS)" >> $R; else
   ( cd $S && unshare -n sh -c "ip link set lo up; go test -vet=off -count=1 -timeout 20m -run '^($FT)\$' ./$PKG" > $S/suite2.out 2>&1 )
   grep -q "^ok" $S/suite2.out && echo "package suite with change: passes (after one rerun of timing-dependent: $FT)" >> $R || echo "package suite with change: FAILS" >> $R
+  fi
 fi
 cp $DST/$DEMOBASE $S/$PKG/
 ( cd $S && unshare -n sh -c "ip link set lo up; go test -vet=off -count=1 -timeout 10m -run '^${TEST}\$' ./$PKG" > $S/demo1.out 2>&1 ); grep -q "^ok" $S/demo1.out && echo "demo with change: PASSES (unexpected)" >> $R || echo "demo with change: fails (expected)" >> $R
 ( cd $S && git apply -R $DST/patch.diff && unshare -n sh -c "ip link set lo up; go test -vet=off -count=1 -timeout 10m -run '^${TEST}\$' ./$PKG" > $S/demo2.out 2>&1 ); grep -q "^ok" $S/demo2.out && echo "demo without change: passes (expected)" >> $R || echo "demo without change: FAILS (unexpected)" >> $R
+# detection by the registered check, run against the scratch worktree with the change applied (the same check
+# command as in MANIFEST, pointed at the copy with --repo, so that /repo itself is never modified)
+( cd $S && rm -f $PKG/$DEMOBASE && git apply $DST/patch.diff ) && ( cd /verif && ./check $PROP quick -no-evidence --repo $S > $DST/check.out 2>&1; echo "check exit: $?" >> $R )
+sed -i "s|$S|/repo|g" $DST/check.out
 git -C /repo worktree remove --force $S
-# detection by the registered check
-( cd /repo && git apply $DST/patch.diff ) && ( cd /verif && ./check $PROP quick -no-evidence > $DST/check.out 2>&1; echo "check exit: $?" >> $R ); ( cd /repo && git checkout -- . )
 grep "^VIOLATION" $DST/check.out | sed 's/replay=.*replays\//replay=/' >> $R
 tail -1 $DST/check.out >> $R
 cat $R
